@@ -372,6 +372,7 @@ type c09Req struct {
 	raw   []byte // bytes put on the wire when via == raw
 	split int    // raw: first write carries raw[:split]
 	hold  bool   // raw: keep the write side open (sent to the short-read-timeout server)
+	abort bool   // raw: reset the stream right after writing, without reading the answer
 	fault string // "", service, reserve, size, lookup
 	how   string // how the request was derived
 }
@@ -379,7 +380,7 @@ type c09Req struct {
 func (r *c09Req) desc() string {
 	s := fmt.Sprintf("%s/%s/%s %s", r.class, c09KindName[r.kind], r.via, r.how)
 	if r.via == "raw" {
-		s += fmt.Sprintf(" bytes=%x split=%d hold=%v", r.raw, r.split, r.hold)
+		s += fmt.Sprintf(" bytes=%x split=%d hold=%v abort=%v", r.raw, r.split, r.hold, r.abort)
 	} else {
 		s += " " + r.f.desc(r.kind)
 	}
@@ -638,6 +639,11 @@ func (w *c09World) sendRaw(ctx context.Context, rq *c09Req, target peer.ID) (res
 			return res
 		}
 	}
+	if rq.abort {
+		_ = s.Reset()
+		res.status = "aborted"
+		return res
+	}
 	if !rq.hold {
 		_ = s.CloseWrite()
 	}
@@ -860,6 +866,12 @@ func (w *c09World) run(tb c09TB, rq *c09Req) {
 		}
 	}
 	res := w.do(tb, rq, id)
+	if rq.abort {
+		// the client walked away: nothing to judge about the answer, I3-I5 were checked by do
+		vk.Record(w.desc+" || "+rq.desc(), append([]string{"class=" + rq.class, "abort=1",
+			"kind=" + c09KindName[rq.kind]}, w.labels...), res.reached, nil)
+		return
+	}
 	w.judge(tb, rq, f, exp, sq, why, res)
 
 	nontrivial := false
@@ -1285,7 +1297,12 @@ func (w *c09World) genRaw(t *rapid.T) *c09Req {
 	}
 	rq.how = how
 	rq.split = rapid.IntRange(0, len(rq.raw)).Draw(t, "split")
-	rq.hold = rapid.IntRange(0, 11).Draw(t, "hold") == 0
+	switch rapid.IntRange(0, 15).Draw(t, "mode") {
+	case 0:
+		rq.hold = true
+	case 1:
+		rq.abort = true
+	}
 	return rq
 }
 
